@@ -13,6 +13,9 @@ func init() { register("C12", checkC12) }
 
 func checkC12(c *Ctx) {
 	r := c.R
+	r.Rule("R12.9", "the documented flags are the ones in force: AddFlags / RemoveFlags apply every flag of their argument list (the loop around the flag-word update has its natural exit only), so LnoInterrupt / Linterruptalways given after another flag are not dropped")
+	r.Rule("R01.8", "(shared with C01) package-level Panic/Fatal write and terminate for every kind of default logger: the dispatcher has an emitting arm for *logimp and for *Entry")
+	r.Rule("R03.1", "(shared with C03) record first: the routing decision function equals the documented one (an emptied per-level list for Panic/Fatal does not hide the error device)")
 	r.Rule("R03.3", "(shared with C03) record first: each Set/Add operation of the writer set stores into the list it names (SetErrorWriter installs the error list), so the destination Panic/Fatal are routed to is never left empty by the setter that names it")
 	r.Rule("R12.1", "termination decision: the decision function extracted from the function that prints and then terminates (logContext), over the atoms {inTesting, interrupt-always flag, no-interrupt flag, lvl==Panic, lvl==Fatal} and every other branch condition universally quantified, equals the property's table: panic(msg) for Panic, os.Exit(-3) for Fatal, only when (not testing or interrupt-always) and not no-interrupt; nothing otherwise")
 	r.Rule("R12.2", "record first: on every path that terminates, the emission call precedes the panic/exit")
@@ -43,6 +46,9 @@ func checkC12(c *Ctx) {
 		nilContextSafe(c, p, m, "R02.9")
 		testingPredicate(c, p)
 		c03Frames(c, p, m)
+		c03Routing(c, p, m)
+		flagLoopsTraversal(c, p, "R12.9")
+		c01DefaultKinds(c, p, m, "R01.8")
 	}
 	c.Floor["R12.1"] = 16
 	c.Floor["R12.5"] = 3
